@@ -109,6 +109,21 @@ CHECKS = {
              "copy interpreter-owned lists before publishing them; deep_copy "
              "builds a new container for lists and lazy lists.",
         ref="DESIGN.md §3 C10"),
+    "C11": dict(
+        technique="structural shape / ordering rules on get_input, pop, the "
+                  "input element template and the scope-pushing templates "
+                  "(field-write inventory for cursors and the flag)",
+        category="other",
+        text="Clause-level: every read in get_input has the cyclic shape "
+             "S[0][S[1] % len(S[0])] on one scope, is guarded by a non-empty "
+             "scope and followed by exactly one S[1] += 1 on the same scope "
+             "before returning; scope choice is inputs[0] iff use_top_input; "
+             "empty-scope fallbacks match the specification; cursors and the "
+             "flag are written nowhere else; pop calls get_input once per "
+             "missing item; the ? template sets/reads/resets the flag; lambda "
+             "and function templates push [reversed copy of the arguments, "
+             "0]. Scope push/pop balance is C12's.",
+        ref="DESIGN.md §3 C11"),
     "C12": dict(
         technique="stack-height (typestate) analysis over the structured CFG "
                   "of every extracted template x hole state, and of python "
